@@ -58,6 +58,14 @@ def cases(prop, shard, nshards, seed, tier, want_models=False):
         for fn in ("tests/4gqj-assembly1.cif", "tests/4WTI_1_T-P.cif", "tests/1DFU_1_M-N.cif", "tests/184D.cif", "tests/1JJP.cif"):
             if mine():
                 yield {"family": "hostile-auth-collide", "file": fn, "ops": [{"op": "auth-collide"}]}
+    # uridines presented as thymidines (the T rows of the donor / acceptor / edge / Saenger tables with RNA geometry,
+    # G.T wobbles in both orientations), and nucleotides reduced to their base
+    for fn in ("tests/4qln.cif", "tests/1ehz-assembly-1.cif", "tests/1E7K_1_C.cif", "tests/1A1T_1_B.cif"):
+        for hops in ([{"op": "u-to-t"}], [{"op": "u-to-t"}, {"op": "reverse-res"}], [{"op": "base-only", "seed": "bo1", "frac": 0.3}], [{"op": "base-only", "seed": "bo2", "frac": 1.0}]):
+            if tier == "quick" and fn.endswith(("1E7K_1_C.cif", "1A1T_1_B.cif")) and hops[0]["op"] == "base-only" and hops[0]["frac"] == 1.0:
+                continue
+            if mine():
+                yield {"family": "hostile-" + hops[0]["op"], "file": fn, "ops": hops}
     # degenerate inputs: nothing to annotate (no residue, one residue, one donor/acceptor atom at most, no base atoms)
     for hops in ([{"op": "first-n", "n": 0}], [{"op": "first-n", "n": 1}], [{"op": "backbone-only"}], [{"op": "first-n", "n": 2}, {"op": "thin-atoms", "seed": "d", "frac": 1.0, "names": ["N1", "N2", "N3", "N4", "N6", "N7", "O2", "O4", "O6", "O2'", "O4'", "OP1", "OP2", "O3'", "O5'"]}]):
         if mine():
